@@ -158,6 +158,49 @@ META.update({
     },
 })
 
+META.update({
+    "C07": {
+        "text": "Containers.tla gives every backend as a representation with a refinement mapping Logical(c) (plain buffer, "
+                "ring buffer with every head offset, strided / reversed views, chunked arrays with validity) and the accessors "
+                "as the adapters compute them; TLC checks AccessorsAgree and RingLive for every representation parameter "
+                "within the bound; every representation is built as the real container, its accessors compared with "
+                "Logical(c), and one representative of every function family required to be bit-identical on every "
+                "representation, wrapper, output container and output path." + ENUM,
+        "note": NOTE + " Polars cells run in the thorough tier only (build time); std / ndarray / Polars internals trusted.",
+        "design": "DESIGN.md section 6 C07",
+    },
+    "C15": {
+        "text": "Casts.tla: CastExp over type tags and value classes, NullPreserved, OptionComposes, PredicatesCoherent and "
+                "the comparator axioms over all triples, checked by TLC on the definition." + ENUM,
+        "note": NOTE + " Wrap / saturation outcomes are compared with the language's `as` in the harness.",
+        "design": "DESIGN.md section 6 C15",
+    },
+    "C16": {
+        "text": "TimeArith.tla: instants as mixed-radix triples, the proleptic Gregorian calendar and NaT-absorbing operators; "
+                "CoarserIsFloor, FinerAndBack, TruncTowardPast, CalendarRoundTrip and the NaT laws checked by TLC on a grid "
+                "with range limits, pre-epoch non-divisible instants and leap days." + ENUM,
+        "note": "TLC trusted; the triple <-> i64 representation map of the harness and chrono (the reference calendar the "
+                "property names) are trusted base.",
+        "design": "DESIGN.md section 6 C16",
+    },
+    "C17": {
+        "text": "TimeArith.tla: AddSubInverse, DiffAddsBack, GroupAxioms, ScaleDistributes, end-of-month clamping, "
+                "TruncIsGreatestMultiple, MonthTruncIsPeriodStart, HmsRoundTrip checked by TLC over instants at month ends / "
+                "leap days / year ends / pre-epoch, durations of every fixed unit with both signs, month counts -1200..1200." + ENUM,
+        "note": "TLC trusted; representation map and chrono trusted; durations added to a date-time are whole units of it.",
+        "design": "DESIGN.md section 6 C17",
+    },
+    "C18": {
+        "text": "DurationParse.tla: the duration scanner as a state machine over symbol strings with an independently defined "
+                "grammar; TLC checks Total (liveness), StartLeI and Sound (well-formed => the sum of the terms) over every "
+                "string up to the bound and every string of a grammar-directed alphabet up to a longer one; every string is "
+                "given to all the parsers under catch_unwind; the date-time format / parse round trip is replayed on the C16 "
+                "grid." + ENUM,
+        "note": "TLC trusted; chrono's parser / formatter bound by conformance only.",
+        "design": "DESIGN.md section 6 C18",
+    },
+})
+
 DEFAULT_NA = "check not built yet in this round (work in progress; see DESIGN.md section 11)"
 
 
